@@ -1215,7 +1215,7 @@ fn emit_fn_inner(unit: &Unit, src: &SrcFile, f: &FnSpec, threaded: &BTreeSet<Str
             rw.edit(ba, ba, &contract, "INJ", "contract");
             if f.stub {
                 let (_, be) = br(block.span());
-                rw.edit(ba, be, "{ unimplemented!() }", "R16", &format!("callers' view of case-split fn {}: contract only (proved by its copies)", name));
+                rw.edit(ba, be, "{ unimplemented!() }", "ASSUMED", &format!("body of {} not verified here: signature + contract only", name));
             } else {
                 let pre = if f.pre.trim().is_empty() { String::new() } else { format!("\n{}\n", f.pre.trim_end()) };
                 rw.edit(bb, bb, &pre, "INJ", "body prologue");
